@@ -1,10 +1,15 @@
 /-
 C19 — pipe splitting, breaking and skeletonization keep what they promise to keep.
 
-Subject: Model/Morph.lean (M9): `_split_or_break_pipe` of wntr/morph/link.py (REPAIRED code: no check valve on
-the new pipe, `junction_coordinates` initialised; the pinned variants and their counterexamples are in the section
-"the pinned code") and the three operations of wntr/morph/skel.py.  Theorems hold for every network state, pipe,
-fraction, end, vertex list, threshold, exclusion list and every sequence of skeletonization steps.
+Subject: Model/Morph.lean (M9): `_split_or_break_pipe` of wntr/morph/link.py (REPAIRED code, fixes/C19-split-no-check-valve.patch and
+fixes/C19-split-at-zero-with-vertices.patch: no check valve on the new pipe, `junction_coordinates` initialised; the pinned variants,
+their counterexamples and `split_pinned_eq_repaired` are in the section "the pinned code") and the three operations of
+wntr/morph/skel.py plus the cycle loop of `run`.  Theorems hold for every network state, pipe, fraction, end, vertex list,
+threshold, exclusion list and every sequence of skeletonization steps.
+
+Statements that are FALSE of the code are kept as `def … : Prop` with a counterexample and a `_partial`:
+`SplitHydraulicsUnchanged` (minor loss copied to both parts), `SplitStatusUnchanged` (a CLOSED pipe opened by a control: the new
+part has no control), `SplitNewPipeNoCvPinned` / `SplitTotalPinned` (repaired by the two patches).
 -/
 import WntrModel.Model.Morph
 import WntrModel.Lemmas.MorphSkel
@@ -380,6 +385,29 @@ theorem split_hydraulics_unchanged_partial (k L f m φ q : Rat) :
   unfold headlossAfter headlossBefore hwResistance; ring
 
 example : headlossAfter 2 100 (1 / 4) 3 0 5 7 = headlossBefore 2 100 3 0 5 7 := by norm_num [headlossAfter, headlossBefore, hwResistance]
+
+/-! #### status of the two parts under controls
+
+"No controls are added to the new pipe; the original pipe keeps any controls" and "the new pipe has the same base status": the
+original part follows the control schedule `ctl t`, the new part keeps the status `init` it was created with; water passes the
+series iff both parts are open. -/
+
+def seriesOpen (oldOpen newOpen : Bool) : Bool := oldOpen && newOpen
+
+/-- the full statement: at every time the two parts in series are open exactly when the unsplit pipe would be -/
+def SplitStatusUnchanged : Prop := ∀ (init : Bool) (ctl : Nat → Bool) (t : Nat), seriesOpen (ctl t) init = ctl t
+
+/-- FALSE: an initially CLOSED pipe that a control opens at `t = 1` stays blocked by its new, control-less, closed part -/
+theorem split_status_unchanged_counterexample : ¬ SplitStatusUnchanged := by
+  intro h
+  have := h false (fun t => decide (1 ≤ t)) 1
+  revert this; decide
+
+/-- true for every control schedule when the pipe is initially open (a control that closes the original part closes the series) -/
+theorem split_status_unchanged_partial (ctl : Nat → Bool) (t : Nat) : seriesOpen (ctl t) true = ctl t := by
+  simp [seriesOpen]
+
+example : seriesOpen ((fun t => decide (t < 3)) 5) true = (fun t => decide (t < 3)) 5 := by decide
 
 /-! ### the pinned code -/
 
